@@ -463,6 +463,35 @@ func crashSignature(stderr string) string {
 	return "crash:" + head + "@" + frame
 }
 
+// harnessFatal recognises a runtime abort ("fatal error: concurrent map writes" and the like,
+// which no recover() can catch) whose aborting goroutine has harness code as its first frame
+// outside the runtime. It returns a one-line description, or "".
+func harnessFatal(stderr string) string {
+	lines := strings.Split(stderr, "\n")
+	for i, l := range lines {
+		if !strings.HasPrefix(l, "fatal error: concurrent map") {
+			continue
+		}
+		for j := i + 1; j < len(lines) && j < i+60; j++ {
+			fl := lines[j]
+			if fl == "" || strings.HasPrefix(fl, "\t") || strings.HasPrefix(fl, "goroutine ") {
+				if fl == "" && j > i+2 {
+					break // end of the aborting goroutine's block
+				}
+				continue
+			}
+			if strings.HasPrefix(fl, "runtime.") || strings.HasPrefix(fl, "internal/") {
+				continue
+			}
+			if strings.HasPrefix(fl, "vh/") {
+				return l + " in " + funcName(fl)
+			}
+			return ""
+		}
+	}
+	return ""
+}
+
 // funcName strips the argument list from a goroutine-dump frame line.
 func funcName(l string) string {
 	for j := 0; j < len(l); j++ {
@@ -635,6 +664,18 @@ func runWorker(p *Prop, tier string, seed uint64, w int, mine []int, workDir, ra
 			// the worker died during case `current`
 			se := stderr.String()
 			script := readSteps(steps)
+			if f := harnessFatal(se); f != "" {
+				// the Go runtime aborted the worker over the harness' OWN memory (concurrent map
+				// access and the like with harness code on top of the aborting stack): a defect of
+				// the check, never a verdict about the tree under test
+				fmt.Fprintf(realStderr, "HARNESS-INTERNAL-ERROR worker died in harness code during case %d: %s\n", current, f)
+				agg.mu.Lock()
+				agg.Evaluations++
+				agg.Counters["harness_internal_errors"]++
+				agg.mu.Unlock()
+				mine = rest
+				continue
+			}
 			v := &Violation{Case: current, Sig: crashSignature(se), Script: script, Stderr: tail(se, 6000),
 				Msg: fmt.Sprintf("worker process died during case %d (%v): %s", current, werr, firstLines(se, 3))}
 			agg.mu.Lock()
